@@ -14,7 +14,11 @@ L1 == { <<"list", e>> : e \in Leaf3 } \cup { <<"dict", <<"str">>, e>> : e \in Le
       \cup { <<c, <<"str">>, e>> : c \in {"chainmap", "odict", "ddict"}, e \in { <<"int">>, <<"date">> } }
       \cup { <<"deque", e>> : e \in { <<"int">>, <<"date">> } } \cup { <<"counter", <<"str">> >> }
 L2 == { <<"list", e>> : e \in L1 } \cup { <<"dict", <<"str">>, e>> : e \in L1 } \cup { <<"opt", e>> : e \in L1 } \cup { <<"tuple", <<e, <<"int">> >> >> : e \in L1 }
-Shapes == L1 \cup L2
+\* unions with container members (typed elements, Any elements): the member's container is a typed container of the result
+UShapes == { <<"union", << <<"int">>, <<"list", <<"any">> >> >> >>, <<"union", << <<"str">>, <<"dict", <<"str">>, <<"any">> >> >> >>,
+             <<"union", << <<"list", <<"int">> >>, <<"dict", <<"str">>, <<"int">> >> >> >>, <<"union", << <<"int">>, <<"list", <<"str">> >> >> >>,
+             <<"list", <<"union", << <<"int">>, <<"list", <<"any">> >> >> >> >>, <<"opt", <<"union", << <<"bool">>, <<"dict", <<"str">>, <<"any">> >> >> >> >> }
+Shapes == L1 \cup L2 \cup UShapes
 NSets == SUBSET {"list", "dict", "set"}
 ClassFor(t, n, plain) ==
   <<"dc", "K", << <<"f", t, <<"req">>, <<>> >>, <<"g", <<"list", <<"int">> >>, <<"fac", L(<<I(1)>>)>>, <<>> >> >>,
